@@ -1,13 +1,22 @@
 #!/bin/bash
 # usage: seedtest.sh <patch.diff> <Cxx> [more Cxx...]   -- apply a seeded change to /repo, run the checks, undo it
+# (evidence files and generated Coq files of the clean tree are put back afterwards)
 set -u
 patch=$1; shift
 cd /verif
-git -C /repo apply "$patch" || { echo "patch does not apply"; exit 2; }
+bak=$(mktemp -d /verif/.cache/evbak.XXXXXX)
+cp -a evidence/. "$bak"/
+git -C /repo apply "$patch" || { echo "patch does not apply"; rm -rf "$bak"; exit 2; }
 for p in "$@"; do
   echo "=== $p with $(basename $(dirname $patch))"
   python3 check.py $p 2>&1 | grep -v "^\[$p\] proofs ok" | tail -6
-  echo "exit=$?"
+  echo "exit=${PIPESTATUS[0]}"
 done
 git -C /repo checkout -- .
 git -C /repo status --short | head -3
+cp -a "$bak"/. evidence/
+rm -rf "$bak"
+python3 -c "
+import sys; sys.path.insert(0,'/verif')
+from lib import common
+print('regen after revert:', common.regen()[0])"
